@@ -26,7 +26,7 @@ EXPLANATION = (
     'look-ups read the same path; R9 completion is signalled only from the cache-hit, last-index and empty-table branches, and '
     'the extended-type pass hands the completion on. Reply orders as such are not enumerated: R1 is the structural guard.')
 ASSUMPTIONS = ['firmware log.h type codes 1..8 and parameter type-byte bit semantics are as tabulated in this check']
-FLOORS = {'R1': 4, 'R2': 8, 'R3': 20, 'R4': 2, 'R5': 4, 'R6': 20, 'R7': 6, 'R8': 5, 'R9': 4}
+FLOORS = {'R10': 3, 'R1': 4, 'R2': 8, 'R3': 20, 'R4': 2, 'R5': 4, 'R6': 20, 'R7': 6, 'R8': 5, 'R9': 4}
 
 FW_LOG_TYPES = {1: ('uint8_t', 1), 2: ('uint16_t', 2), 3: ('uint32_t', 4), 4: ('int8_t', 1), 5: ('int16_t', 2), 6: ('int32_t', 4),
                 7: ('float', 4), 8: ('FP16', 2)}
@@ -70,13 +70,14 @@ def slice_rule(ctx, rule='R3'):
     return n
 
 
-def check(ctx):
+def fetch_guard_rules(ctx, rule='R1'):
+    """An element is added / the index advanced only for the requested index on channel 0 (shared with C02)."""
     m = ctx.model
     fetcher = m.cls(TOC, 'TocFetcher')
     cb = fetcher.method('_new_packet_cb')
     g = cfg_of(cb)
     pkv = cb.params[1]
-
+    reqs = g.find(lambda n: method_call(n, '_request_toc_element'))
     # ---- R1 ------------------------------------------------------------------------
     adds = g.find(lambda n: method_call(n, 'add_element'))
     ctx.need(adds, 'TocFetcher._new_packet_cb: no add_element call')
@@ -87,19 +88,90 @@ def check(ctx):
         for n, x in sites:
             keys = g.fact_keys_at(n)
             ok = fact_key('ident != self.requested_index', False) in keys
-            ctx.inst('R1', cb, '%s-needs-requested-index' % label, ok,
+            ctx.inst(rule, cb, '%s-needs-requested-index' % label, ok,
                      '%s at line %d must be guarded by ident == self.requested_index (stale/duplicated replies ignored); guards %s' % (label, n.line, sorted(keys)))
-            ctx.inst('R1', cb, '%s-needs-channel-0' % label, any(k in keys for k in chan0), '%s must only happen for channel-0 (TOC) replies' % label)
+            ctx.inst(rule, cb, '%s-needs-channel-0' % label, any(k in keys for k in chan0), '%s must only happen for channel-0 (TOC) replies' % label)
     for n, x in adds:
         a = x.args[0] if x.args else None
         ok = isinstance(a, ast.Call) and norm(a.func) == 'self.element_class' and norm(a.args[0]) == 'ident'
-        ctx.inst('R1', cb, 'element-index=reply-index', ok, 'the element is constructed with the index decoded from the reply; found %s' % norm(x))
+        ctx.inst(rule, cb, 'element-index=reply-index', ok, 'the element is constructed with the index decoded from the reply; found %s' % norm(x))
     for n, x in advs:
-        ctx.inst('R1', cb, 'advance-by-one', isinstance(x.op, ast.Add) and fold_in(cb, x.value) == 1, 'requested index advances by exactly one')
+        ctx.inst(rule, cb, 'advance-by-one', isinstance(x.op, ast.Add) and fold_in(cb, x.value) == 1, 'requested index advances by exactly one')
     nxt = [(n, x) for n, x in reqs if fact_key('self.state == GET_TOC_ELEMENT', True) in g.fact_keys_at(n)]
     for n, x in nxt:
-        ctx.inst('R1', cb, 'next-request=requested-index', [norm(a) for a in x.args] == ['self.requested_index'] and any(g.dominates(a[0], n) for a in advs),
+        ctx.inst(rule, cb, 'next-request=requested-index', [norm(a) for a in x.args] == ['self.requested_index'] and any(g.dominates(a[0], n) for a in advs),
                  'the next request asks for the advanced index')
+
+    return fetcher, cb, g, pkv, adds, reqs
+
+
+def toc_lookup_rules(ctx, rule='R8'):
+    """Toc stores under [group][name]; the look-ups read the same path (shared with C04, C05)."""
+    m = ctx.model
+    # ---- R8: Toc container -------------------------------------------------------------------------------
+    toc = m.cls(TOC, 'Toc')
+    ae = toc.method('add_element')
+    ep = ae.params[1]
+    ws = [norm(s.targets[0]) for s in walk_own(ae.node) if isinstance(s, ast.Assign) and norm(s.value) == ep]
+    ctx.inst(rule, ae, 'store-path', bool(ws) and set(ws) == {'self.toc[%s.group][%s.name]' % (ep, ep)}, 'elements are stored under toc[group][name]; stores %s' % ws)
+    ge = toc.method('get_element')
+    rets = [norm(s.value) for s in walk_own(ge.node) if isinstance(s, ast.Return) and s.value is not None and not isinstance(s.value, ast.Constant)]
+    ctx.inst(rule, ge, 'lookup-path', rets == ['self.toc[%s][%s]' % (ge.params[1], ge.params[2])], 'get_element(group, name) reads toc[group][name]; returns %s' % rets)
+    gi = toc.method('get_element_by_id')
+    g3 = cfg_of(gi)
+    rn = [n for n in g3.nodes if n.kind == 'return' and n.ast.value is not None and not isinstance(n.ast.value, ast.Constant)]
+    ok = len(rn) == 1 and any(k[0].endswith('.ident == %s' % gi.params[1]) or k[0].startswith('%s == ' % gi.params[1]) and k[0].endswith('.ident') for k in g3.fact_keys_at(rn[0]) if k[1])
+    if ok:
+        cmp_ = [k[0] for k in g3.fact_keys_at(rn[0]) if k[1] and '.ident' in k[0]][0]
+        ok = norm(rn[0].ast.value) in cmp_
+    ctx.inst(rule, gi, 'by-id-compares-ident', ok, 'get_element_by_id returns the element whose .ident equals the argument')
+    gid = toc.method('get_element_id')
+    sp = {norm(s.targets[0]): norm(s.value) for s in walk_own(gid.node) if isinstance(s, ast.Assign)}
+    okid = sp.get('[group, name]') == "%s.split('.')" % gid.params[1] and sp.get('element') == 'self.get_element(group, name)' and \
+        any(isinstance(s, ast.Return) and s.value is not None and norm(s.value) == 'element.ident' for s in walk_own(gid.node))
+    ctx.inst(rule, gid, 'id-of-name', okid, 'get_element_id splits group.name, looks the element up and returns its ident')
+    gc = toc.method('get_element_by_complete_name')
+    from ..symexec import paths_of
+    ps, _ = paths_of(gc, pure=('self.get_element_id',))
+    want = 'self.get_element_by_id(self.get_element_id(%s))' % gc.params[1]
+    bad = []
+    n_ok = 0
+    for p_ in ps:
+        if p_.outcome[0] != 'return':
+            continue
+        rv = p_.returned()
+        exc = any(not isinstance(o, ast.expr) for _, _, o in p_.conds)
+        if rv is not None and norm(rv) == want:
+            n_ok += 1
+        elif exc and (rv is None or norm(rv) == 'None'):
+            continue            # malformed name (ValueError) -> None
+        elif (rv is None or norm(rv) == 'None') and all(('is None' in c or 'is not None' in c) for c in p_.cond_texts()):
+            continue            # explicit not-found test on None
+        else:
+            bad.append((p_.cond_texts(), norm(rv) if rv is not None else None))
+    ctx.inst(rule, gc, 'complete-name=composition', n_ok >= 1 and not bad,
+             'lookup by complete name must be by-id of id-of-name on every path (index 0 is a valid id: no truthiness test on it); deviating paths %s' % bad)
+    # truthiness of a Toc object is used as "table present" by its holders: Toc must not define __len__/__bool__
+    holders = []
+    for path in (LOG, PAR, TOC):
+        for f in m.mod(path).all_funcs():
+            for n in ast.walk(f.node):
+                if isinstance(n, (ast.If, ast.While)):
+                    for x in ast.walk(n.test):
+                        if isinstance(x, ast.Attribute) and x.attr == 'toc' and norm(x.value) == 'self' and \
+                                (n.test is x or (isinstance(n.test, ast.UnaryOp) and n.test.operand is x) or isinstance(n.test, ast.BoolOp) and any(
+                                    v is x or (isinstance(v, ast.UnaryOp) and v.operand is x) for v in n.test.values)):
+                            holders.append(f.qualname)
+    dunder = [d for d in ('__len__', '__bool__') if toc.has(d)]
+    ctx.inst(rule, (TOC, 'Toc'), 'toc-truthiness=presence', not (holders and dunder),
+             'Toc defines %s while %s test `self.toc` for truthiness meaning "table object present": an empty table would read as absent '
+             '(a duplicated reset reply restarts the download)' % (dunder, sorted(set(holders))))
+
+
+def check(ctx):
+    m = ctx.model
+    fetcher, cb, g, pkv, adds, reqs = fetch_guard_rules(ctx, 'R1')
+    advs = g.find(lambda n: isinstance(n, ast.AugAssign) and norm(n.target) == 'self.requested_index')
 
     # ---- R2: V1/V2 pairing -------------------------------------------------------------
     start = fetcher.method('start')
@@ -252,31 +324,9 @@ def check(ctx):
              'group, name = first and second NUL separated strings')
     ctx.inst('R7', init, 'param-ident', pst.get('self.ident') == 'ident', 'element index = constructor argument')
 
-    # ---- R8: Toc container -------------------------------------------------------------------------------
-    toc = m.cls(TOC, 'Toc')
-    ae = toc.method('add_element')
-    ep = ae.params[1]
-    ws = [norm(s.targets[0]) for s in walk_own(ae.node) if isinstance(s, ast.Assign) and norm(s.value) == ep]
-    ctx.inst('R8', ae, 'store-path', bool(ws) and set(ws) == {'self.toc[%s.group][%s.name]' % (ep, ep)}, 'elements are stored under toc[group][name]; stores %s' % ws)
-    ge = toc.method('get_element')
-    rets = [norm(s.value) for s in walk_own(ge.node) if isinstance(s, ast.Return) and s.value is not None and not isinstance(s.value, ast.Constant)]
-    ctx.inst('R8', ge, 'lookup-path', rets == ['self.toc[%s][%s]' % (ge.params[1], ge.params[2])], 'get_element(group, name) reads toc[group][name]; returns %s' % rets)
-    gi = toc.method('get_element_by_id')
-    g3 = cfg_of(gi)
-    rn = [n for n in g3.nodes if n.kind == 'return' and n.ast.value is not None and not isinstance(n.ast.value, ast.Constant)]
-    ok = len(rn) == 1 and any(k[0].endswith('.ident == %s' % gi.params[1]) or k[0].startswith('%s == ' % gi.params[1]) and k[0].endswith('.ident') for k in g3.fact_keys_at(rn[0]) if k[1])
-    if ok:
-        cmp_ = [k[0] for k in g3.fact_keys_at(rn[0]) if k[1] and '.ident' in k[0]][0]
-        ok = norm(rn[0].ast.value) in cmp_
-    ctx.inst('R8', gi, 'by-id-compares-ident', ok, 'get_element_by_id returns the element whose .ident equals the argument')
-    gid = toc.method('get_element_id')
-    sp = {norm(s.targets[0]): norm(s.value) for s in walk_own(gid.node) if isinstance(s, ast.Assign)}
-    okid = sp.get('[group, name]') == "%s.split('.')" % gid.params[1] and sp.get('element') == 'self.get_element(group, name)' and \
-        any(isinstance(s, ast.Return) and s.value is not None and norm(s.value) == 'element.ident' for s in walk_own(gid.node))
-    ctx.inst('R8', gid, 'id-of-name', okid, 'get_element_id splits group.name, looks the element up and returns its ident')
-    gc = toc.method('get_element_by_complete_name')
-    rets = [norm(s.value) for s in walk_own(gc.node) if isinstance(s, ast.Return) and s.value is not None and not isinstance(s.value, ast.Constant)]
-    ctx.inst('R8', gc, 'complete-name=composition', rets == ['self.get_element_by_id(self.get_element_id(%s))' % gc.params[1]], 'lookup by complete name is by-id of id-of-name; returns %s' % rets)
+    toc_lookup_rules(ctx, 'R8')
+    from .c11 import cache_name_rules
+    cache_name_rules(ctx, 'R10')       # cache present: only a table stored under exactly the announced CRC may be adopted
 
     # ---- R9: completion ------------------------------------------------------------------------------------------
     fins = g.find(lambda n: method_call(n, '_toc_fetch_finished'))
